@@ -297,6 +297,7 @@ class Stmts(Exec):
             for sub in t.values: self.narrow(st, sub, True)
             return
         if target is None or val != nonnull_when: return
+        return        # representation is never changed; Optional arguments are unwrapped at call sites when the path condition implies it
         if isinstance(target, ast.Name):
             fr = st.frames[-1]; v = fr.get(target.id)
             if isinstance(v, V) and isinstance(v.t, OptT): fr[target.id] = self.load_val(st, v.t.base, opt_val(v.t, v.z))
